@@ -490,6 +490,12 @@ fn owned(prof: &Profile, v: &Violation, w: &World) -> bool {
     if prof.owner == "C03" && w.restarts > 0 && key.starts_with("C01:") {
         return true;
     }
+    // ... and "preserves the append position" includes where the next batch goes in log and index: once messages were appended
+    // after a restart, a poll that no longer returns its slice counts for C03 too (the load-time reconciliation repairs such damage
+    // at the following restart, so the restart scan alone no longer sees it)
+    if prof.owner == "C03" && w.restarts > 0 && !w.cfg.no_wait && w.ev.contains_key("send_after_restart") && key.starts_with("C02:slice") {
+        return true;
+    }
     // C18: a dropped duplicate is "dropped without consuming an offset": with deduplication on, offset-assignment clauses count for it
     if prof.owner == "C18" && w.cfg.dedup && key.starts_with("C01:") {
         return true;
